@@ -113,6 +113,16 @@ objs=[f*v*ds + k*f*v*dx, f*u*v*ds(1) + u*v*ds(2)]'''),
     _c("pyramid_ds_coefficient", '''
 m=mesh("pyramid"); V=space(m,"P",1); v=TestFunction(V); f=Coefficient(V)
 objs=[f*f*v*ds]'''),
+    # facet integrals with two rules, one of them with a single point (values under the one-point rule stay in its loop)
+    _c("two_rules_one_point_ds", '''
+m=mesh("triangle"); V=space(m,"P",1); v=TestFunction(V); f=Coefficient(V)
+objs=[v*ds(degree=1) + f*v*ds(degree=2) + f.dx(0)*v*ds(degree=1)]'''),
+    _c("two_rules_one_point_dS", '''
+m=mesh("triangle"); V=space(m,"P",1); v=TestFunction(V); f=Coefficient(V)
+objs=[avg(v)*dS(degree=1) + avg(f)*avg(v)*dS(degree=2) + jump(grad(f),FacetNormal(m))*avg(v)*dS(degree=1)]'''),
+    _c("two_rules_one_point_tet_ds", '''
+m=mesh("tetrahedron"); V=space(m,"P",1); u,v=TrialFunction(V),TestFunction(V); f=Coefficient(V)
+objs=[u*v*ds(degree=1) + f*u*v*ds(degree=3)]'''),
     _c("mathfun_tri", '''
 m=mesh("triangle"); V=space(m,"P",1); f=Coefficient(V)
 objs=[exp(f)*sin(f)*dx + ln(f*f+2.0)*dx]'''),
